@@ -6,6 +6,7 @@ import subprocess
 import sys
 import tempfile
 
+import uberjob
 from hypothesis import given, strategies as st
 from uberjob.progress import Progress
 
@@ -61,6 +62,14 @@ def cases(draw, max_nodes):
     spec = {"nodes": g.nodes, "output": common.all_refs_output({"nodes": g.nodes})}
     cfg = {"workers": draw(st.sampled_from([1, 2, 2, 3, 4, 5])), "scheduler": draw(st.sampled_from(["default", "random", "random", None])),
            "rseed": draw(st.integers(0, 999))}
+    if not use_reg and draw(st.sampled_from([True, False, False])):
+        # some calls of the plan fail on their own and the run goes on (max_errors allows it): an interrupt
+        # arriving later must still surface as KeyboardInterrupt
+        calls = [i for i, nd in enumerate(g.nodes) if nd["k"] == "call" and nd["beh"]["t"] == "ok"]
+        for i in calls:
+            if draw(st.integers(0, 3)) == 0:
+                g.nodes[i]["beh"] = {"t": "raise", "exc": draw(st.sampled_from(["exc", "val"])), "first": -1}
+        cfg["max_errors"] = draw(st.sampled_from([None, None, 5, 1]))
     return {"spec": spec, "cfg": cfg, "registry": use_reg, "sched": draw(harness.schedules(det_only=True)),
             "trace_all": draw(st.sampled_from([False, False, True]))}
 
@@ -138,7 +147,9 @@ def check_k(ctx, case, k, n_ops, need_exec, record):
         nt = bool(info["inflight"]) and bool(need_exec - before)
     if record:
         ctx.case(key_case, nt, [f"phase:{info['phase']}", f"workers:{case['cfg']['workers']}",
-                                f"scheduler:{case['cfg']['scheduler']}", "registry" if case["registry"] else "no_registry"])
+                                f"scheduler:{case['cfg']['scheduler']}", "registry" if case["registry"] else "no_registry"]
+                 + (["a_call_failed_before_the_interrupt"] if info["delivered_at"] is not None and any(
+                     e[1] == "raise" for e in w.events[: info["delivered_at"]]) else []))
     if info["delivered_at"] is None:
         ctx.violation(case2, tag + "harness: the k-th operation was never reached")
     key = "interrupt-during-worker-startup" if info["phase"] == "startup" else None
@@ -155,12 +166,16 @@ def check_k(ctx, case, k, n_ops, need_exec, record):
     # calls in flight at delivery ran to completion
     ends = {e[2] for e in w.events if e[1] == "end"}
     raises = [(e[2], e[3]) for e in w.events if e[1] == "raise"]
+    ends |= {e[2] for e in w.events if e[1] == "raise" and e[2] in {i for i, nd in enumerate(case["spec"]["nodes"])
+                                                                    if nd["k"] == "call" and nd["beh"]["t"] == "raise"}}
     for i in info["inflight"]:
         if i not in ends:
             ctx.violation(case2, tag + f"call {i} was executing when the interrupt arrived but did not run to completion "
                                        f"(raises: {raises})", key=key)
-    if raises:
-        ctx.violation(case2, tag + f"calls raised although only the caller was interrupted: {raises}", key=key)
+    failing = {i for i, nd in enumerate(case["spec"]["nodes"]) if nd["k"] == "call" and nd["beh"]["t"] == "raise"}
+    unexpected = [r for r in raises if r[0] not in failing]
+    if unexpected:
+        ctx.violation(case2, tag + f"calls raised although only the caller was interrupted: {unexpected}", key=key)
     # no further calls once the caller waits for its workers
     if info["join_at"] is not None:
         per_thread = collections.Counter(e[4] for e in w.events[info["join_at"]:] if e[1] == "start")
@@ -200,7 +215,8 @@ def check_k(ctx, case, k, n_ops, need_exec, record):
 
 def check_case(ctx, case, record=True, only=None):
     w0, _, out0, info0 = run_interrupted(case, None)
-    if out0.verdict or out0.status != "ok":
+    has_failing = any(nd["k"] == "call" and nd["beh"]["t"] == "raise" for nd in case["spec"]["nodes"])
+    if out0.verdict or (out0.status != "ok" and not (has_failing and isinstance(out0.value, uberjob.CallError))):
         ctx.violation({"case": case, "k": None}, f"uninterrupted run failed: {out0.verdict} {out0.value!r}")
     n_ops = info0["count"]
     need_exec = {e[2] for e in w0.events if e[1] == "start"}
